@@ -699,7 +699,8 @@ def case_class(c, p):
         return 'digest-announced-made-by-%s/%s' % (p['alg'], integ_class(p))
     if fn == 'params':
         return '%s-params-%s-digest-%s-%s' % ('interest' if p['kind'] == 'I' else 'data', p['params'], p['digest'], p['dpos'])
-    return 'members[%s]' % ','.join(FN_NAMES.get(m['fn'], m['fn']) + (':' + m['ckey'] if m['fn'] in KEYTYPES else '') for m in c['mem'])
+    nested = any(m['fn'] == 'union' for m in c['mem'])
+    return 'members-%d%s' % (len(c['mem']), '-nested' if nested else '')
 
 
 def signature(c, p, exp, obs):
